@@ -11,6 +11,8 @@ LoginDevice(inner, mode="telnet" | "ssh", username, password, passphrase=None)
 typed records what was typed at each prompt: [("username"|"password"|"passphrase", text)]"""
 from typing import List, Optional, Tuple
 
+from harness.simdevice import CliDevice
+
 
 class LoginDevice:
     def __init__(self, inner, mode: str = "telnet", username: str = "admin", password: str = "pw", passphrase: Optional[str] = None,
@@ -140,3 +142,24 @@ class DialogueDevice:
                 if self.echo_all or not hid:
                     out.append(b)
         return bytes(out)
+
+
+class BadSecretDevice(CliDevice):
+    """a CliDevice that gives ONE try at a password prompt (enable / root shell): a wrong password is answered with an
+    error line and the prompt of the mode the device was in before (EOS style "% Bad secret" and back at `>`), i.e.
+    the read after the hidden input ends on the previous privilege level's prompt, not on the expected one.
+    Nothing typed at the password prompt is echoed (inherited)."""
+
+    def __init__(self, *a, deny_text: str = "% Bad secret", **kw):
+        super().__init__(*a, **kw)
+        self.deny_text = deny_text
+
+    def _execute(self, raw: bytes) -> bytes:
+        if self.pending is not None:
+            line = raw.decode("utf-8", "replace")
+            if line != self.enable_password:
+                self.pending = None
+                self.pw_tries = 0
+                self.events.append(("password", False))
+                return self._frame(self.deny_text)
+        return super()._execute(raw)
